@@ -279,7 +279,7 @@ def loadDepList (P : Params κ) (cfg : Cfg) (defs : Defs) : Nat → List Lbl →
         | some r =>
           match loadOutputs dt r s with
           | some s1 =>
-            if dt.noCache && !P.fx.rerunOnce then
+            if dt.noCache && (!P.fx.rerunOnce || !dst.loaded) then
               let (s2, ok2) := loadDepList P cfg defs n dt.ldeps s1
               if !ok2 then (s2, false) else
               let (s3, ok3) := execTarget P cfg defs dt dk false s2
